@@ -7,7 +7,8 @@ INCLUDE = spaces.C02_SIX + ['n_geos_max', 'n_pretest_max', 'n_designs', 'rho_max
 RULE = ('Engine A: FULL/DEV configuration spaces x n_designs in {1,2,5,50}; per input an independent brute-force '
         'enumeration of ALL legal designs over the admitted geos (itertools.product over per-geo options), constraints '
         'from raw data, score tuple composed by the oracle from fresh library diagnostics on reference series. '
-        'Asserted: result subset of feasible set, distinct, |R| >= min(k,|F_must|), no non-exempt feasible design '
+        'THRESH: budget/share/volume bounds between every two consecutive critical values; REUSE: the same configurations '
+        'on a data object that already served another matched-markets object. Asserted: result subset of feasible set, distinct, |R| >= min(k,|F_must|), no non-exempt feasible design '
         'outside R scores higher than the worst of R, non-increasing order. Exemption read generously (any subset '
         'S of T containing the fixed treatment geos with optimistic budget outside the range). Non-trivial = '
         '|F_must| > k (something had to be left out); distinct = distinct case.')
@@ -17,11 +18,19 @@ ASSUMPTIONS = ['feasible designs are drawn from the geos admitted by geos_within
 
 
 def cases(tier, seed):
-    return spaces.family_space(tier, seed, INCLUDE, {'n_designs': 2}, methods=('exhaustive_search',),
-                               k_values=(1, 5, 50),
-                               full3_subsets=((), ('budget_range',), ('treatment_share_range', 'budget_range'),
-                                              ('volume_ratio_tolerance', 'geo_ratio_tolerance'),
-                                              ('treatment_geos_range', 'budget_range')))
+    out = spaces.family_space(tier, seed, INCLUDE, {'n_designs': 2}, methods=('exhaustive_search',),
+                              k_values=(1, 5, 50),
+                              full3_subsets=((), ('budget_range',), ('treatment_share_range', 'budget_range'),
+                                             ('volume_ratio_tolerance', 'geo_ratio_tolerance'),
+                                             ('treatment_geos_range', 'budget_range')))
+    pB4 = {'name': 'B', 'G': 4, 'T': 12}
+    out += spaces.threshold_space(pB4, methods=('exhaustive_search',), base_kw={'n_designs': 3},
+                                  rho_values=(0.995, 0.9) if tier == 'thorough' else (0.995,))
+    if tier == 'thorough':
+        out += spaces.threshold_space({'name': 'B', 'G': 5, 'T': 12}, methods=('exhaustive_search',), base_kw={'n_designs': 3})
+        out += spaces.threshold_space({'name': 'A', 'G': 4, 'T': 12}, methods=('exhaustive_search',), base_kw={'n_designs': 1})
+    out += spaces.reuse_space(pB4, INCLUDE, {'n_designs': 2}, methods=('exhaustive_search',), d=2 if tier == 'thorough' else 1)
+    return out
 
 
 def run_case(case):
